@@ -644,21 +644,33 @@ EXPLANATION = ("C11_total (never raises, never out of fuel on the documented dom
                "success-vs-exception, the reported domain (time: exact microseconds; linear: 1e-9 relative, with the nice() band "
                "alternatives of Scale/Band.v counted as ambiguous), the range, every dot position and every tick position "
                "(1e-9 relative + 1e-9 x axis length) and every tick TEXT (exactly; parsed from the SVG) with the model, and runs BOTH back-ends through the real layout engine and "
-               "emitters, whose failures (any exception) the oracle reports.")
-LEVEL_TEXT = ("Machine-checked Coq theorems on a Gallina model of the axis pipeline of labella/timeline.py in an error monad (explicit "
-              "failures for empty data, mixed/wrong time types and out-of-range dates; the other raising operations of the export "
-              "path - option dicts, engine, emitters - are covered by the tie only): for every non-empty dataset of numbers with a "
+               "emitters, whose failures (any exception) the oracle reports. Option dictionaries: the merged self.options and every value "
+               "read from it (API 720/721) are compared with Timeline.__init__ / Force(options['labella']) on random partial and "
+               "malformed user dicts, including the exception class where the model raises.")
+LEVEL_TEXT = ("Machine-checked Coq theorems on Gallina models of (a) the axis pipeline of labella/timeline.py in an error monad (explicit "
+              "failures for empty data, mixed/wrong time types and out-of-range dates), (b) the option dictionaries (Render/Options.v: "
+              "Timeline.__init__'s merge with the defaults and every subscript performed on the merged dict, KeyError/TypeError explicit) "
+              "and (c) the recursion of the solver's traversals. (a) For every non-empty dataset of numbers with a "
               "LinearScale, or of date/datetime/time values of millisecond resolution in years 1900-2200 with the TimeScale, with "
               "or without an explicit domain, any direction, sizes, margins and tick display, the pipeline returns a value - it "
               "never raises and never runs out of fuel (C11_total; time-nice totality proved for that year range and every count); "
               "a degenerate domain puts every dot at coordinate 0 for both scale kinds (C11_degenerate); one dot per datum in "
-              "datum order at the scale position of its time (C11_counts). The model is tied to the code by differential "
-              "execution of both exports on every run.")
-LEVEL_NOTE = ("NOT in the Coq model, covered by the tie only: the layout engine's recursion depth (CPython frames; conflict "
-              "clusters above 200 items raise RecursionError: the open known finding the property itself records, "
-              "corpus/C11/recursion_260.json), the dict-key handling of omitted / empty / partial options, the emitters' string "
+              "datum order at the scale position of its time (C11_counts). (b) For options None, {} or ANY subset of the documented keys "
+              "whose given values have the documented kinds (extra keys allowed, latex and labella partial), the merge succeeds, no "
+              "documented key is missing afterwards and every subscript succeeds (C11_options_none, C11_options_merge, "
+              "C11_options_all_keys, C11_options_total, C11_options_omitted_total, C11_options_own_scale). (c) In every state the "
+              "solver reaches, each recursive traversal started at a variable recurses at most as deep as the number of variables "
+              "of that variable's BLOCK, and a layer of k items gives at most k + 2 variables (C11_depth_le_block, "
+              "C11_depth_compute_lm, C11_depth_find_path, C11_depth_directed_path, C11_depth_populate, C11_depth_le_vars, "
+              "C11_layer_vars). The models are tied to the code by differential execution of both exports on every run.")
+LEVEL_NOTE = ("NOT in the Coq model, covered by the tie only: the interpreter's frame accounting (CPython spends four frames per "
+              "level of the solver's recursion against the default limit of 1000; conflict clusters above 200 items raise "
+              "RecursionError: the open known finding the property itself records, corpus/C11/recursion_260.json - the depth bound "
+              "per block IS proved), the emitters' string "
               "formatting (tick texts ARE modelled: Time/TickFormat.v, compared exactly; a \"-0.0\" printed for a tiny negative double "
-              "where the exact tick is 0 is counted as ambiguous). Trusted: Coq kernel; extraction re-checked on a slice by vm_compute; the correspondence "
+              "where the exact tick is 0 is counted as ambiguous). The option-dictionary model takes dict keys as numbers (the harness "
+              "maps the documented key strings injectively) and values from a small universe (None, bool, number, string, list of "
+              "strings, callable, one level of nested dict, scale object). Trusted: Coq kernel; extraction re-checked on a slice by vm_compute; the correspondence "
               "harness. Modelled, not verified: labella/*.py; doubles as exact rationals (ambiguity bands of nice()/ticks() "
               "counted, not compared). Bare datetime.time data are completed with the implementation's own date.today(), which "
               "is passed to the model.")
@@ -706,20 +718,25 @@ def extra_evidence(cases, impl_out, model_out):
 # coq/Render/Options.v).  Cases carry py["fam"] == "options"; every callback dispatches.
 # ---------------------------------------------------------------------------
 from harness.props import c11opts as _O  # noqa: E402
+from harness.props import c11depth as _D  # noqa: E402
 
-RULE = RULE + " || " + _O.RULE
+RULE = RULE + " || " + _O.RULE + " || " + _D.RULE
+_FAMS = {"options": _O, "depth": _D}
+
+
+def _fam(x):
+    py = x.get("py", x) if isinstance(x, dict) else {}
+    return _FAMS.get(py.get("fam")) if isinstance(py, dict) else None
 
 
 def _opt(x):
-    py = x.get("py", x) if isinstance(x, dict) else {}
-    return isinstance(py, dict) and py.get("fam") == "options"
+    return _fam(x) is not None
 
 
 def _dispatch(name, own):
-    theirs = getattr(_O, name)
-
     def f(case, *a):
-        return theirs(case, *a) if _opt(case) else own(case, *a)
+        m = _fam(case)
+        return getattr(m, name)(case, *a) if m is not None else own(case, *a)
     f.__name__ = name
     return f
 
@@ -743,6 +760,8 @@ def gen(rng, tier):
         yield c
     for c in _O.gen(rng, tier):
         yield c
+    for c in _D.gen(rng, tier):
+        yield c
 
 
 def _split(cases, *lists):
@@ -763,7 +782,13 @@ def prepare_compare(cases, impl_out, model_out, workdir):
 def extra_evidence(cases, impl_out, model_out):
     idx = [i for i, c in enumerate(cases) if not _opt(c)]
     ev = _extra0([cases[i] for i in idx], [impl_out[i] for i in idx], [model_out[i] for i in idx])
-    ev["option_dict_cases"] = len(cases) - len(idx)
+    ev["option_dict_cases"] = sum(1 for c in cases if _fam(c) is _O)
+    dd = [io for c, io in zip(cases, impl_out) if _fam(c) is _D and isinstance(io, dict) and "depth" in io]
+    ev["depth_cases"] = len(dd)
+    ev["depth_max_nesting"] = max([io["depth"] for io in dd] or [0])
+    ev["depth_max_excess_over_block_size"] = max([io["excess"] for io in dd if io.get("excess") is not None] or [None], key=lambda x: -10 ** 9 if x is None else x)
+    fpl = [io["frames_per_level"] for io in dd if io.get("frames_per_level")]
+    ev["interpreter_frames_per_level"] = [min(fpl), max(fpl)] if fpl else None
     kinds = {}
     for c in cases:
         if _opt(c):
